@@ -157,8 +157,13 @@ func (e *lifeEnv) sleepUntilModel(t int) {
 	}
 }
 
+// the five re-openable causes, bare and WRAPPED (gocbcore and callers in between may add context with %w: a cause is a cause
+// whatever it is wrapped in - the code tests with errors.Is)
 var transientErrs = []error{gocbcore.ErrSocketClosed, gocbcore.ErrDCPBackfillFailed, gocbcore.ErrDCPStreamStateChanged,
-	gocbcore.ErrDCPStreamTooSlow, gocbcore.ErrDCPStreamDisconnected}
+	gocbcore.ErrDCPStreamTooSlow, gocbcore.ErrDCPStreamDisconnected,
+	fmt.Errorf("stream end: %w", gocbcore.ErrSocketClosed), fmt.Errorf("stream end: %w", gocbcore.ErrDCPBackfillFailed),
+	fmt.Errorf("stream end: %w", gocbcore.ErrDCPStreamStateChanged), fmt.Errorf("vb: %w", fmt.Errorf("stream end: %w", gocbcore.ErrDCPStreamTooSlow)),
+	fmt.Errorf("stream end: %w", gocbcore.ErrDCPStreamDisconnected)}
 var finalErrs = []error{errors.New("some other end"), gocbcore.ErrDCPStreamFilterEmpty, gocbcore.ErrShutdown}
 
 func (e *lifeEnv) rebalanceCall() (returned bool) { return e.rebalanceCallT(40 * time.Millisecond) }
